@@ -84,7 +84,8 @@ class C05(Property):
             st = None
             lexer_fn = None
         verdict = refparse.recognise(damaged, config, e1.value_of)
-        o = dialects.load(config, case["text"], lexer_fn)
+        o = dialects.load(config, case["text"], lexer_fn,
+                          custom=case.get("custom", False))
         vs = []
         fam = FAMILY[config]
 
@@ -147,16 +148,20 @@ class C05(Property):
         tj = [e1.tok_json(t) for t in toks]
         out.log.ev("label", config, text)
 
+        custom = rng.random() < 0.1
+        if custom:
+            out.inc("probe.custom-container-classes")
+
         def text_case(damaged):
             dt, dtext = gen.render_tokens(rng, config, damaged)
             if damaged and damaged[-1].kind == PARTIAL:
                 dtext = dtext[:dt[-1].end]      # the cut ends the text
-            return {"config": config, "level": "text",
+            return {"config": config, "level": "text", "custom": custom,
                     "tokens": [e1.tok_json(t) for t in dt], "text": dtext}
 
         def chan_case(plan):
             return {"config": config, "level": "chan", "tokens": tj,
-                    "text": text, "plan": plan}
+                    "text": text, "plan": plan, "custom": custom}
 
         def note(plan_or_kind, fired_index):
             """reach probes for one fault that can fire at *fired_index*"""
@@ -266,6 +271,7 @@ class C05(Property):
 
         def rebuilt(new_toks, plan=None):
             c = {"config": case["config"], "level": case["level"],
+                 "custom": case.get("custom", False),
                  "tokens": new_toks,
                  "text": " ".join(t[1] for t in new_toks)}
             if plan is not None:
@@ -278,6 +284,7 @@ class C05(Property):
             base = [e1.tok_from(j) for j in toks]
             dam = e1.apply_plan(base, plan)
             yield {"config": case["config"], "level": "text",
+                   "custom": case.get("custom", False),
                    "tokens": [e1.tok_json(t) for t in dam],
                    "text": " ".join(t.text for t in dam)}
             for i in range(len(plan)):
